@@ -3349,7 +3349,7 @@ static void AssembleFile(char* Name) {
         if ((ErrorCount == 0) && (Repass)) {
             CloseIfOpen(&LstFile);
             if (CodeOutput) {
-                unlink(OutName);
+                UnlinkIfRegular(OutName);
             }
             ClearCodepages();
             if (MakeUseList) {
@@ -3374,16 +3374,16 @@ static void AssembleFile(char* Name) {
 
     if (ErrorCount != 0) {
         if (CodeOutput) {
-            unlink(OutName);
+            UnlinkIfRegular(OutName);
         }
         if (MacProOutput) {
-            unlink(MacProName);
+            UnlinkIfRegular(MacProName);
         }
         if ((MacroOutput) && (PassNo == 1)) {
-            unlink(MacroName);
+            UnlinkIfRegular(MacroName);
         }
         if (ShareMode != 0) {
-            unlink(ShareName);
+            UnlinkIfRegular(ShareName);
         }
         GlobErrFlag = True;
     }
